@@ -3,6 +3,7 @@
 //! Every subcommand prints JSON lines on stdout. Random choices derive from the seed
 //! given on the command line.
 
+mod attrs;
 mod canon;
 mod eqv;
 mod gen;
@@ -28,6 +29,7 @@ fn main() {
         "gs_rand" => gs::main_rand(arg(&args, 2, 0), arg(&args, 3, 100)),
         "strains" => strains::main(arg(&args, 2, 0), arg(&args, 3, 100), arg(&args, 4, 40)),
         "c04" | "c07" | "c08" | "c18" => eqv::main(cmd, arg(&args, 2, 0), arg(&args, 3, 100), arg(&args, 4, 40)),
+        "attrs" => attrs::main(arg(&args, 2, 0), arg(&args, 3, 100), arg(&args, 4, 50)),
         "gperf" => gperf::main(arg(&args, 2, 0), arg(&args, 3, 100), arg(&args, 4, 40)),
         "grad" => grad::main(arg(&args, 2, 0), arg(&args, 3, 100), arg(&args, 4, 40)),
         _ => {
